@@ -1,14 +1,11 @@
 (** The statement skeletons of the run-time wrappers against which the hand-written model
-    (Model/Checker.v, Model/Run.v) was written, and the obligations that tie them to the skeletons
-    regenerated from /repo on this run (Gen/Generated.v):
-      - parity: each async wrapper/helper, with await erased, equals its sync twin (C13);
-      - pin: the sync skeletons are the ones the model mirrors (phase order, try/finally extent,
-        position of the re-entrancy shortcut: C01, C02, C08, C10, C11, C16, C03).
-    A change of the wrappers breaks a lemma here; that is not by itself a violation - it makes the
-    checks search for a failing input. *)
+    (Model/Checker.v, Model/Run.v) was written, pinned: a change of the wrappers in /repo breaks a
+    lemma here; that is not by itself a violation - it makes the checks search for a failing input.
+    (regenerate with harness/repin.py after reviewing the model against the new code) *)
 From ICV Require Import Base Generated.
 Open Scope string_scope.
 Open Scope list_scope.
+
 
 Definition pinned_init_wrapper : list string := [
   "try:";
